@@ -169,7 +169,8 @@ func (o *vC40SObs) desc() map[string]any {
 type vC40SReader struct {
 	id     int
 	r      *Reader
-	joined bool
+	joined bool // an AddReader call for it is part of the case
+	pre    bool // ... and had returned before the forced part began: RemoveReader may be called
 	gone   bool
 }
 
@@ -479,7 +480,12 @@ func (c *vC40SCase) joinedReaders() []*vC40SReader {
 // a call that needs the write lock
 func (c *vC40SCase) randWriterOp(firstJoin bool) *vC40SOp {
 	x := c.rnd.Intn(100)
-	j := c.joinedReaders()
+	var j []*vC40SReader // RemoveReader only for readers whose AddReader has returned
+	for _, rd := range c.joinedReaders() {
+		if rd.pre {
+			j = append(j, rd)
+		}
+	}
 	switch {
 	case c.rtspAgain && !firstJoin: // a second first caller of RTSPStream() next to the first
 		c.rtspAgain = false
@@ -574,6 +580,7 @@ func (c *vC40SCase) runChain() {
 		if !c.seq(c.newOp("add", rd.id, false)) {
 			return
 		}
+		rd.pre = true
 	}
 	if pre == 0 {
 		c.feat["never-had-a-reader"] = true
@@ -690,6 +697,7 @@ func (c *vC40SCase) runRace() {
 		if !c.seq(c.newOp("add", rd.id, false)) {
 			return
 		}
+		rd.pre = true
 	}
 	if pre == 0 {
 		c.feat["never-had-a-reader"] = true
@@ -708,7 +716,8 @@ func (c *vC40SCase) runRace() {
 	c.lab(cqApp("ZSpawn", hold.coq()), "driver: Stream.mutex.Lock()")
 	c.lab(cqApp("ZStep", fmt.Sprint(hold.pid)), "")
 	c.lab(cqApp("ZStep", fmt.Sprint(hold.pid)), "")
-	c.seg(c.shared(), []int{hold.pid}, false, true, true, false, "read by the driver, holding the write lock")
+	base := c.shared()
+	c.seg(base, []int{hold.pid}, false, true, true, false, "read by the driver, holding the write lock")
 
 	n := 2 + c.rnd.Intn(5)
 	adds, switched := 0, false
@@ -746,10 +755,9 @@ func (c *vC40SCase) runRace() {
 		before := vC40SSigOf(mu)
 		c.spawn(op)
 		if op.kind == "close" || op.kind == "wait" {
-			if op.kind == "close" {
+			// neither needs the mutex: Close() returns; WaitForReaders() returns iff hasReaders is closed already
+			if op.kind == "close" || base.closed {
 				c.waitDone([]*vC40SOp{op})
-			} else {
-				time.Sleep(300 * time.Microsecond)
 			}
 			continue
 		}
@@ -788,6 +796,7 @@ func (c *vC40SCase) runRHold() {
 		if !c.seq(c.newOp("add", rd.id, false)) {
 			return
 		}
+		rd.pre = true
 	}
 	if pre == 0 {
 		c.feat["never-had-a-reader"] = true
